@@ -270,7 +270,18 @@ def checkDealloc (p : Nat) (own indirect : Bool) (t : Ty) (v : Val) (b : Block) 
     if blocksOk && dropsOk then "ok"
     else
       -- classification of the known defect: exactly what lies below a fixed-length list is missed
-      let isFlistLeak := indirect && sortBlocks s.freed == sortBlocks flistSkipped &&
+      -- (direct operands: the buffers live at other addresses than in an in-memory copy of the value, so the
+      -- blocks a fixed-length-list-skipping cleanup frees are compared by (size, align) shape, and every
+      -- freed block must be one of the allocated ones)
+      let shape (bs : List (Nat × Nat × Nat)) : List (Nat × Nat) := (bs.map (·.2)).mergeSort (fun a b => a.1 < b.1 || (a.1 == b.1 && a.2 ≤ b.2))
+      let skippedShapeDirect : List (Nat × Nat) :=
+        let (addr, s0) := ({} : MSt).alloc (elemSize p t) (alignment p t)
+        let ss := Spec.store p t v addr s0.st
+        shape (reachBlocks true p ss.mem t addr)
+      let blocksAsSkipping :=
+        if indirect then sortBlocks s.freed == sortBlocks flistSkipped
+        else s.freed.all (expected.contains ·) && shape s.freed == skippedShapeDirect
+      let isFlistLeak := blocksAsSkipping &&
         s.dropped.mergeSort == (if own then ownedHandlesNoFlist t v else []).mergeSort
       (if isFlistLeak then "FAIL[flist-leak]" else "FAIL") ++
         (if !blocksOk then " freed=" ++ toString (sortBlocks s.freed) ++ " expected=" ++ toString (sortBlocks expected)
